@@ -134,8 +134,13 @@ def check(repo: Repo, R) -> None:
     rule = "C06.5-instance-targets"
     inst = set(union(repo, F_INSTANTIABLE, "InstantiableUnion"))
     h = isinstance_handled(repo, fi, subject="inst.of")
-    ds = au.dispatch_defaults(fi.node, "inst.of")
-    falls = bool(ds) and all(au.raises(d) for d in ds)
+    # whatever the shape of the dispatch: with a target that is none of the instantiable kinds, a raise is reached — and
+    # nothing is written to the instance's module reference
+    universe = {k.split(".")[-1] for k in inst}
+    falls = any(shared.admissible_kinds(fi.node, r_, "inst.of", universe) == {"<other>"} for r_ in shared.raising_leaves(fi.node))
+    for st_ in au.walk_no_nested(fi.node):
+        if isinstance(st_, ast.Assign) and ast.unparse(st_.targets[0]).startswith("pinst.module.") and "<other>" in shared.admissible_kinds(fi.node, st_, "inst.of", universe):
+            falls = False
     R.check(inst <= h and falls, rule, key_of(fi, "dispatch"), fi.site, f"export_instance dispatches over {sorted(h)} ⊇ Instantiable {sorted(inst)}; anything else raises: {falls}", why="an instance of an unhandled target kind is exported without a module reference")
     R.run(c13.ideal_primitives, repo, R, "C06.5-instance-targets")
     PHYS, IDEAL = "inst.of.prim.primtype == PrimitiveType.PHYSICAL", "inst.of.prim.primtype == PrimitiveType.IDEAL"
